@@ -622,6 +622,9 @@ func C20(c *runner.Cfg) *report.Result {
 	if !c.Abort.Load() {
 		freeUnderBackPressure(c, res)
 	}
+	if !c.Abort.Load() {
+		sendVariants(c, res)
+	}
 	res.Observe("hook_hits", hooks.Hits())
 	fk, fd := hooks.Failures()
 	for k, nn := range fk {
